@@ -50,6 +50,8 @@ type Exec struct {
 	dryFrame  *Frame
 	loopFrameHeaps map[*ssa.BasicBlock][]string
 	funcVals  map[string]*ssa.Function
+	ghostFields map[string]*GhostField
+	definingGhost map[string]bool
 	axiomNames []string
 	lemmaErrs  []string
 	initBase  *State
@@ -780,6 +782,9 @@ func (x *Exec) binop(st *State, fr *Frame, op token.Token, X, Y ssa.Value, resT 
 		return x.arith(st, fr, resT, app(SInt, "*", a, b), pos)
 	case token.QUO:
 		x.require(st, fr, "nopanic/div0", not(eq(b, mkInt(0))), pos, "division by zero")
+		if n, ok := smallConstBig(b); ok && n.Sign() > 0 {
+			return truncDiv(a, b) // cannot overflow
+		}
 		return wrapInt(resT, truncDiv(a, b))
 	case token.REM:
 		x.require(st, fr, "nopanic/div0", not(eq(b, mkInt(0))), pos, "division by zero")
